@@ -37,6 +37,7 @@ type opdef struct {
 	kind     int // 0 pay, 1 +1 block, 2 next epoch, 3 past memory
 	provider int
 	proofs   []int
+	upper    bool // the tx creator is spelled in upper case (the same account in bech32)
 }
 
 type scen struct {
@@ -94,6 +95,15 @@ func build(aged bool, wrap ...bool) *scen {
 			}
 			s.ops = append(s.ops, opdef{name: fmt.Sprintf("pay(p%d,[%s])", p, strings.Join(n, ",")), kind: 0, provider: p, proofs: set})
 		}
+	}
+	// the same provider account named by the all-upper-case spelling of its bech32 address in the tx creator field (the
+	// relay still names the provider as the consumer signed it): an unusual but valid input
+	for _, set := range [][]int{{0}, {0, 0}} {
+		var n []string
+		for _, i := range set {
+			n = append(n, proofs[i].name)
+		}
+		s.ops = append(s.ops, opdef{name: fmt.Sprintf("pay(P0-UPPER-CASE-CREATOR,[%s])", strings.Join(n, ",")), kind: 0, provider: 0, proofs: set, upper: true})
 	}
 	s.ops = append(s.ops, opdef{name: "+1block", kind: 1}, opdef{name: "next-epoch", kind: 2}, opdef{name: "past-memory", kind: 3})
 	for _, o := range s.ops {
@@ -230,7 +240,11 @@ func (s *scen) Apply(op int) bfs.Step {
 	}
 	before := s.read(paddr, epochStarts)
 	res := w.Tx(func() error {
-		msg := &pairingtypes.MsgRelayPayment{Creator: paddr, Relays: relays, DescriptionString: "verif"}
+		creator := paddr
+		if o.upper {
+			creator = strings.ToUpper(paddr)
+		}
+		msg := &pairingtypes.MsgRelayPayment{Creator: creator, Relays: relays, DescriptionString: "verif"}
 		if err := msg.ValidateBasic(); err != nil {
 			return err
 		}
